@@ -82,6 +82,7 @@ type SessCfg struct {
 	NoJoin    bool                `json:"nojoin,omitempty"` // do not join in the prologue; a "join" op does it
 	Rewrite   bool                `json:"rewrite,omitempty"` // in-process session that rewrites every EVENT/INVOCATION the moment it is handed over (robustness checks only)
 	TransportAuth bool            `json:"transport_auth,omitempty"` // attach with transport details carrying auth data (websocket)
+	KeepAlive     int64           `json:"keepalive,omitempty"`      // websocket ping/pong heartbeat interval of the router side, ns (0 = off)
 	Cookie        string          `json:"cookie,omitempty"`         // tracking cookie the websocket request carried
 	NextCookie    string          `json:"nextcookie,omitempty"`     // tracking cookie the server hands out for next time
 	RecvLimit int                 `json:"recv_limit,omitempty"`     // server-side rawsocket receive limit
